@@ -971,13 +971,22 @@ func (fr *Frame) enterLoop(head *ssa.BasicBlock, phis []*ssa.Phi, outside func(*
 	env2 := fr.specEnv(fr.st)
 	env2.vars = vars
 	env2.pre = pre
+	unbound := false
 	for _, inv := range spec.Invariants {
 		if inv.Assumed {
 			fr.cx.trust(fmt.Sprintf("assumed at the head of loop %d of %s (data read from outside the verified state): %s", ord, fr.fn, inv.Text))
 		}
 		if g := fr.evalClause(env2, inv); g != nil {
 			fr.assume(g)
+		} else if !inv.Assumed {
+			// the loop contract does not bind to this loop any more (the loop was rewritten): the function is
+			// undecided (reported above); nothing behind the loop head is judged without its invariant
+			unbound = true
 		}
+	}
+	if unbound {
+		fr.reach = b.False()
+		return false
 	}
 	sent := fr.cx.newObligation("cover", fmt.Sprintf("loop%d-body", ord), "the loop invariants and frame do not contradict each other", fr.pos(head.Instrs[0].Pos()), fr.reach, b.False(), fr.props())
 	sent.IsCover, sent.FullCover, sent.Trivial = true, true, false
